@@ -15,3 +15,28 @@ package openapi3filter
 //@   preserves @C15 all(openapi3), all(routers), all(gorillamux), all(legacy), all(pathpattern)
 //@   preserves @C15 globals(openapi3), globals(openapi3filter), globals(routers), globals(gorillamux), globals(legacy), globals(pathpattern)
 //@   records respOK := (result == nil)
+
+// The body-encoder registry is a package-level map guarded by bodyEncodersM.
+//@ guarded bodyEncoders by bodyEncodersM @C15
+
+//@ func RegisterBodyEncoder
+//@   requires !wlocked[ptr(bodyEncodersM)] && rlocked[ptr(bodyEncodersM)] == 0
+//@   modifies *
+//@   modifies wlocked, rlocked
+//@   ensures unchanged(wlocked, rlocked)
+//@   option safety-tags C10
+//@   tag C15
+//@ func UnregisterBodyEncoder
+//@   requires !wlocked[ptr(bodyEncodersM)] && rlocked[ptr(bodyEncodersM)] == 0
+//@   modifies *
+//@   modifies wlocked, rlocked
+//@   ensures unchanged(wlocked, rlocked)
+//@   option safety-tags C10
+//@   tag C15
+//@ func RegisteredBodyEncoder
+//@   requires !wlocked[ptr(bodyEncodersM)] && rlocked[ptr(bodyEncodersM)] == 0
+//@   modifies *
+//@   modifies wlocked, rlocked
+//@   ensures unchanged(wlocked, rlocked)
+//@   option safety-tags C10
+//@   tag C15
